@@ -73,7 +73,7 @@ func ct_reduce(fe *Element, z *[10]uint64) *Element {
 	return fe
 }
 
-//verif:ob prop=C04,C06 name=reduce mode=int tags=force32bit prove=ct_reduce
+//verif:ob prop=C04,C06,C07 name=reduce mode=int tags=force32bit prove=ct_reduce
 func vh_reduce() {
 	var z [10]uint64
 	verif.AnyU64s("z", z[:])
@@ -94,20 +94,20 @@ func ct_Mul(fe, a, b *Element) *Element {
 	return fe
 }
 
-//verif:ob prop=C04,C06 name=Mul mode=int tags=force32bit prove=ct_Mul use=ct_reduce
+//verif:ob prop=C04,C06,C07 name=Mul mode=int tags=force32bit prove=ct_Mul use=ct_reduce
 func vh_Mul() {
 	a, b := anyElement("a"), anyElement("b")
 	var out Element
 	ct_Mul(&out, a, b)
 }
 
-//verif:ob prop=C04 name=Mul_aliased mode=int tags=force32bit prove=ct_Mul use=ct_reduce
+//verif:ob prop=C04,C06 name=Mul_aliased mode=int tags=force32bit prove=ct_Mul use=ct_reduce
 func vh_Mul_alias() {
 	a, b := anyElement("a"), anyElement("b")
 	ct_Mul(a, a, b)
 }
 
-//verif:ob prop=C04 name=Mul_inline_reduce mode=int tags=force32bit prove=ct_Mul
+//verif:ob prop=C04,C07,C06 name=Mul_inline_reduce mode=int tags=force32bit prove=ct_Mul
 func vh_Mul_inline() {
 	a, b := anyElement("a"), anyElement("b")
 	var out Element
@@ -145,7 +145,7 @@ func ct_Pow2k(fe, t *Element, k uint) *Element {
 	return fe
 }
 
-//verif:ob prop=C04,C06 name=Pow2k mode=int tags=force32bit prove=ct_Pow2k use=ct_reduce split=k:1..2
+//verif:ob prop=C04,C06,C07 name=Pow2k mode=int tags=force32bit prove=ct_Pow2k use=ct_reduce split=k:1..2
 func vh_Pow2k() {
 	t := anyElement("t")
 	var out Element
@@ -165,7 +165,7 @@ func ct_Square(fe, t *Element) *Element {
 	return fe
 }
 
-//verif:ob prop=C04 name=Square mode=int tags=force32bit prove=ct_Square use=ct_reduce
+//verif:ob prop=C04,C07,C06 name=Square mode=int tags=force32bit prove=ct_Square use=ct_reduce
 func vh_Square() {
 	t := anyElement("t")
 	ct_Square(t, t)
@@ -177,7 +177,7 @@ func ct_Square2(fe, t *Element) *Element {
 	return fe
 }
 
-//verif:ob prop=C04 name=Square2 mode=int tags=force32bit prove=ct_Square2 use=ct_reduce
+//verif:ob prop=C04,C06 name=Square2 mode=int tags=force32bit prove=ct_Square2 use=ct_reduce
 func vh_Square2() {
 	t := anyElement("t")
 	var out Element
@@ -209,7 +209,7 @@ func ct_Add(fe, a, b *Element) *Element {
 	return fe
 }
 
-//verif:ob prop=C04 name=Add mode=int tags=force32bit prove=ct_Add
+//verif:ob prop=C04,C07,C06 name=Add mode=int tags=force32bit prove=ct_Add
 func vh_Add() {
 	a, b := anyElement("a"), anyElement("b")
 	ct_Add(a, a, b)
@@ -236,7 +236,7 @@ func ct_Sub(fe, a, b *Element) *Element {
 	return fe
 }
 
-//verif:ob prop=C04 name=Sub mode=int tags=force32bit prove=ct_Sub use=ct_reduce
+//verif:ob prop=C04,C07,C06 name=Sub mode=int tags=force32bit prove=ct_Sub use=ct_reduce
 func vh_Sub() {
 	a, b := anyElement("a"), anyElement("b")
 	ct_Sub(b, a, b)
@@ -259,7 +259,7 @@ func ct_Neg(fe, t *Element) *Element {
 	return fe
 }
 
-//verif:ob prop=C04 name=Neg mode=int tags=force32bit prove=ct_Neg use=ct_reduce
+//verif:ob prop=C04,C06 name=Neg mode=int tags=force32bit prove=ct_Neg use=ct_reduce
 func vh_Neg() {
 	t := anyElement("t")
 	ct_Neg(t, t)
@@ -278,14 +278,14 @@ func ct_Mul121666(fe, t *Element) *Element {
 	return fe
 }
 
-//verif:ob prop=C04 name=Mul121666 mode=int tags=force32bit prove=ct_Mul121666 use=ct_reduce
+//verif:ob prop=C04,C07,C06 name=Mul121666 mode=int tags=force32bit prove=ct_Mul121666 use=ct_reduce
 func vh_Mul121666() {
 	t := anyElement("t")
 	var out Element
 	ct_Mul121666(&out, t)
 }
 
-//verif:ob prop=C04,C10 name=SetBytes mode=int tags=force32bit
+//verif:ob prop=C04,C10,C07,C06 name=SetBytes mode=int tags=force32bit
 func vh_SetBytes() {
 	var in [32]byte
 	verif.AnyBytes("in", in[:])
@@ -296,7 +296,7 @@ func vh_SetBytes() {
 	verif.Assert(verif.ModEq(val2625(&fe.inner), verif.IntLE(in[:]).Mod(verif.Pow2(255)), fP()), "value = (le(in) mod 2^255) mod p")
 }
 
-//verif:ob prop=C04,C14 name=SetBytesWide mode=int tags=force32bit
+//verif:ob prop=C04,C14,C06 name=SetBytesWide mode=int tags=force32bit
 func vh_SetBytesWide() {
 	var in [64]byte
 	verif.AnyBytes("in", in[:])
@@ -321,14 +321,14 @@ func ct_ToBytes(fe *Element, out []byte) error {
 
 // EVERY 10x32-bit limb vector.
 //
-//verif:ob prop=C04,C10 name=ToBytes mode=int tags=force32bit prove=ct_ToBytes use=ct_reduce
+//verif:ob prop=C04,C10,C07,C06 name=ToBytes mode=int tags=force32bit prove=ct_ToBytes use=ct_reduce
 func vh_ToBytes() {
 	fe := anyElement("fe")
 	var out [32]byte
 	_ = ct_ToBytes(fe, out[:])
 }
 
-//verif:ob prop=C04,C08 name=ConditionalSelect mode=bv tags=force32bit
+//verif:ob prop=C04,C08,C06 name=ConditionalSelect mode=bv tags=force32bit
 func vh_CondSelect() {
 	a, b := anyElement("a"), anyElement("b")
 	choice := verif.AnyInt("choice")
@@ -344,7 +344,7 @@ func vh_CondSelect() {
 	}
 }
 
-//verif:ob prop=C04,C08 name=ConditionalAssign mode=bv tags=force32bit
+//verif:ob prop=C04,C08,C06 name=ConditionalAssign mode=bv tags=force32bit
 func vh_CondAssign() {
 	a, b := anyElement("a"), anyElement("b")
 	a0 := *a
@@ -360,7 +360,7 @@ func vh_CondAssign() {
 	}
 }
 
-//verif:ob prop=C04,C08 name=ConditionalSwap mode=bv tags=force32bit
+//verif:ob prop=C04,C08,C07,C06 name=ConditionalSwap mode=bv tags=force32bit
 func vh_CondSwap() {
 	a, b := anyElement("a"), anyElement("b")
 	a0, b0 := *a, *b
